@@ -70,12 +70,17 @@ def _path_case(vals, acc):
         if maxsegs < 0:
             return
     want = ref_split_path(path, minsegs, maxsegs, rwl)
-    try:
-        got = strutils.split_path(path, minsegs, maxsegs, rwl)
-    except ValueError:
-        got = 'ValueError'
-    except Exception as e:
-        got = 'raises ' + type(e).__name__
+    got = None
+    for _ in (1, 2):          # asked twice: the answer must not depend on earlier calls
+        prev = got
+        try:
+            got = strutils.split_path(path, minsegs, maxsegs, rwl)
+        except ValueError:
+            got = 'ValueError'
+        except Exception as e:
+            got = 'raises ' + type(e).__name__
+    if prev != got:
+        got = 'unstable: %r then %r' % (prev, got)
     if want != 'ValueError':
         acc.nontrivial(repr((path, minsegs, maxsegs, rwl)))
     if got != want:
@@ -96,10 +101,15 @@ def _list_case(vals, acc):
     items = list(vals[0])
     text = ','.join(quote(i) for i in items)
     acc.nontrivial(text)
-    try:
-        got = strutils.split_by_commas(text)
-    except Exception as e:
-        got = 'raises ' + type(e).__name__
+    got = None
+    for _ in (1, 2):
+        prev = got
+        try:
+            got = strutils.split_by_commas(text)
+        except Exception as e:
+            got = 'raises ' + type(e).__name__
+    if prev != got:
+        got = 'unstable: %r then %r' % (prev, got)
     if got != items:
         acc.fail('split_by_commas', {'text': text, 'got': got, 'want': items}, {'list': items})
 
